@@ -20,7 +20,7 @@ SPECS = {
     "C03": [("c03_request_stream_sequences", "c03"), ("c02_frame_decoder_memo", "c02m")],
     "C04": [("c04_control_stream_rules", "c04"), ("c02_frame_decoder_memo", "c02m"), ("c19_uni_stream_header", "c19m"), ("c04_uni_stream_classification", "c04b")],
     "C06": [("c02_frame_decoder_memo", "c02m"), ("c19_uni_stream_header", "c19m")],
-    "C07": [("c07_stream_scoped_faults", "c03"), ("c02_frame_decoder_memo", "c02m")],
+    "C07": [("c07_stream_scoped_faults", "c03"), ("c02_frame_decoder_memo", "c02m"), ("c10_send_side_limit", "c10m")],
     "C05": [("c05_interleavings", "c05")],
     "C08": [("c08_goaway_rules", "c08")],
     "C09": [("c09_request_end_accounting", "c09")],
